@@ -620,6 +620,42 @@ namespace
                         c2.a  = {sz, c.arg(1, 1)};
                         alloc(c2, false, op == "tnc");
                     }
+                    else if (op == "anm" || op == "aam" || op == "anl")
+                    {
+                        // requests at and around the maxima the traits report (C03, C18): max_node_size + d,
+                        // an array of max_array_size / sz + d elements, alignment max_alignment << k
+                        if (cur->member)
+                            continue;
+                        std::size_t mn, ma, mal;
+                        cur->maxes(mn, ma, mal);
+                        Cmd  c2;
+                        bool array = op == "aam";
+                        if (op == "anm")
+                        {
+                            long long sz = static_cast<long long>(mn) + c.arg(0);
+                            if (mn == 0 || mn > (1u << 24) || sz < 1)
+                                continue;
+                            c2.op = "an";
+                            c2.a  = {sz, c.arg(1, 1)};
+                        }
+                        else if (op == "aam")
+                        {
+                            long long sz  = c.arg(0);
+                            long long cnt = sz > 0 ? static_cast<long long>(ma) / sz + c.arg(1) : 0;
+                            if (ma == 0 || ma > (1u << 24) || sz < 1 || cnt < 1)
+                                continue;
+                            c2.op = "aa";
+                            c2.a  = {cnt, sz, c.arg(2, 1)};
+                        }
+                        else
+                        {
+                            if (mal == 0 || mal > (1u << 16))
+                                continue;
+                            c2.op = "an";
+                            c2.a  = {c.arg(0), static_cast<long long>(mal) << c.arg(1, 1)};
+                        }
+                        alloc(c2, array, false);
+                    }
                     else if (op == "an")
                         alloc(c, false, false);
                     else if (op == "aa")
